@@ -79,7 +79,7 @@ def Ctx.deliverRouted (c : Ctx) : Ctx :=
 def presOfflineFilter (mode : Mode) (what : String) (filterIn filterOut : Mode) : Bool :=
   if what = "acs" ∨ what = "gone" then true
   else if what = "upd" ∧ isJoiner mode then true
-  else isPresencer mode && (filterIn = 0 || (mode &&& filterIn) ≠ 0) && (filterOut = 0 || (mode &&& filterOut) = 0)
+  else isJoiner mode && isPresencer mode && (filterIn = 0 || (mode &&& filterIn) ≠ 0) && (filterOut = 0 || (mode &&& filterOut) = 0)
 
 /-! ### notifications for users on their `me` topics (pres.go: presSubsOffline, presSingleUserOffline, presSingleUserOfflineOffline,
 infoSubsOffline). Each is a message to `hub.routeSrv` addressed to a user; `Model/TopicMe.lean` delivers them. -/
